@@ -38,8 +38,8 @@ func (v *Notifier[T]) removeListener(value T, channel chan struct{}) {
 	valueListeners.count--
 
 	if valueListeners.count == 0 {
-		// No one is listening anymore, so we can close the channel and clean up
-		close(valueListeners.channel)
+		// No one is listening anymore, so we can clean up. The channel is not closed,
+		// because a closed channel is the signal that Notify was called for the value.
 		v.listeners.Delete(value)
 	}
 }
